@@ -191,6 +191,7 @@ type vLN struct {
 	feeReserve func(uint64) uint64
 	anyInvoice bool
 	unsettled  bool // incoming invoices are reported as not settled
+	subGate    chan struct{} // when set, invoice notifications wait for this gate
 }
 
 type vStatusAns struct {
@@ -235,7 +236,25 @@ func (l *vLN) InvoiceStatus(hash string) (lightning.Invoice, error) {
 	return inv, err
 }
 
+// vGatedSub delivers the "settled" notification only when the test opens the gate.
+type vGatedSub struct {
+	gate chan struct{}
+	inner lightning.InvoiceSubscriptionClient
+}
+
+func (s *vGatedSub) Recv() (lightning.Invoice, error) {
+	<-s.gate
+	return s.inner.Recv()
+}
+
 func (l *vLN) SubscribeInvoice(ctx context.Context, paymentHash string) (lightning.InvoiceSubscriptionClient, error) {
+	if l.subGate != nil {
+		inner, err := l.FakeBackend.SubscribeInvoice(ctx, paymentHash)
+		if err != nil {
+			return nil, err
+		}
+		return &vGatedSub{gate: l.subGate, inner: inner}, nil
+	}
 	if l.unsettled {
 		return nil, errors.New("verif: no subscription")
 	}
